@@ -5,9 +5,9 @@ namespace Thr2Timer
 
 theorem step_none_of_not_act (c : Cfg) (s : St) (a : Nat) (h : a ∉ acts) : step c s a = none := by
   simp only [acts, List.mem_cons, List.not_mem_nil, or_false, not_or] at h
-  obtain ⟨h0, h1, h2⟩ := h
-  match a, h0, h1, h2 with
-  | a + 3, _, _, _ => simp [step, stepL]
+  obtain ⟨h0, h1, h2, h3⟩ := h
+  match a, h0, h1, h2, h3 with
+  | a + 4, _, _, _, _ => simp [step, stepL]
 
 theorem closed_step (c : Cfg) (R : List St) (h : Closed c R = true) (s : St) (hs : s ∈ R) (a : Nat) :
     (step c s a).getD s ∈ R := by
@@ -122,6 +122,11 @@ theorem step_J (c : Cfg) (hc : c.disp = .flag) (s t : St) (a : Act) (h : J s) (h
       by_cases hji : j = i
       · subst hji; simp [set]
       · simp only [set, hji, if_false] at hj ⊢; exact he j hj
+  | earlyWake =>
+    simp only [stepL] at h1
+    split at h1
+    · cases h1; exact ⟨hr, he, ht, hb⟩
+    · cases h1
 
 theorem run_J (c : Cfg) (hc : c.disp = .flag) : ∀ (sch : List Act) (s : St), J s → J (run c s sch) := by
   intro sch
@@ -137,3 +142,45 @@ theorem run_J (c : Cfg) (hc : c.disp = .flag) : ∀ (sch : List Act) (s : St), J
 theorem init_J : J init := ⟨fun i hi => by simp [init] at hi, fun i hi => by simp [init] at hi, rfl, rfl⟩
 
 end Thr2LoopN
+
+/-! # Periodic scheduling on NewThread/ThreadPool: reachable-set argument -/
+
+namespace Thr2Periodic
+
+theorem step_none_of_not_act (s : St) (a : Nat) (h : a ∉ acts) : step s a = none := by
+  simp only [acts, List.mem_cons, List.not_mem_nil, or_false, not_or] at h
+  obtain ⟨h0, h1, h2, h4, h5⟩ := h
+  match a, h0, h1, h2, h4, h5 with
+  | 3, _, _, _, _, _ => simp [step, stepL]
+  | a + 6, _, _, _, _, _ => simp [step, stepL]
+
+theorem closed_run (R : List St) (h : Closed R = true) : ∀ (sch : List Nat) (s : St), s ∈ R → run s sch ∈ R := by
+  intro sch
+  induction sch with
+  | nil => intro s hs; exact hs
+  | cons a as ih =>
+    intro s hs
+    refine ih _ ?_
+    simp only [Closed, Bool.and_eq_true, List.all_eq_true] at h
+    by_cases ha : a ∈ acts
+    · have := h.2 s hs a ha
+      cases hst : step s a with
+      | none => simpa using hs
+      | some t => simp only [hst] at this; simpa using this
+    · rw [step_none_of_not_act s a ha]; simpa using hs
+
+theorem reach_ok : (Closed reach && reach.all (fun s => !s.bad)) = true := by decide
+
+theorem never_bad (p0 : Bool) (sch : List Nat) : (run (init p0) sch).bad = false := by
+  have h := reach_ok
+  simp only [Bool.and_eq_true] at h
+  have hin : init p0 ∈ reach := by
+    have := h.1
+    simp only [Closed, Bool.and_eq_true] at this
+    cases p0
+    · simpa using this.1.1
+    · simpa using this.1.2
+  have := (List.all_eq_true.1 h.2) _ (closed_run reach h.1 sch _ hin)
+  simpa using this
+
+end Thr2Periodic
